@@ -108,13 +108,9 @@ def is_log_call(v):
 
 
 def nonreal_name(test):
-    names = set()
-    for n in ast.walk(test):
-        if isinstance(n, ast.Name) and n.id in NONREAL:
-            names.add(n.id)
-        elif isinstance(n, ast.Attribute) and n.attr in NONREAL:
-            names.add(n.attr)
-    return "_".join(sorted(names)) + "_ok"
+    """one opaque truth value stands for ALL checks on sizes / the spacing keyword (either they
+    all pass or the first one met fails): adding such a check does not change a signature"""
+    return "nonreal_ok"
 
 
 def only_nonreal(test):
